@@ -1,0 +1,39 @@
+//! Verification hooks (cargo feature `verif`, off by default).
+//!
+//! A single process-wide hook that is called *before* every access of an
+//! [`Atom`](crate::atomic::Atom). The hook receives no allocator state, only
+//! the kind, address and size of the upcoming access and the calling code site.
+//! External monitors use it for scheduling, step counting and snapshots.
+
+use core::panic::Location;
+use core::sync::atomic::{AtomicPtr, Ordering};
+
+pub const LOAD: u8 = 0;
+pub const STORE: u8 = 1;
+pub const SWAP: u8 = 2;
+pub const CAS: u8 = 3;
+pub const RMW: u8 = 4;
+
+/// Called before every atomic access.
+pub type Hook = fn(kind: u8, addr: usize, size: usize, loc: &'static Location<'static>);
+
+static HOOK: AtomicPtr<()> = AtomicPtr::new(core::ptr::null_mut());
+
+/// Install (or remove) the process-wide hook.
+pub fn set_hook(hook: Option<Hook>) {
+    let ptr = match hook {
+        Some(h) => h as *mut (),
+        None => core::ptr::null_mut(),
+    };
+    HOOK.store(ptr, Ordering::Release);
+}
+
+#[inline]
+#[track_caller]
+pub(crate) fn hook(kind: u8, addr: usize, size: usize) {
+    let ptr = HOOK.load(Ordering::Acquire);
+    if !ptr.is_null() {
+        let hook: Hook = unsafe { core::mem::transmute::<*mut (), Hook>(ptr) };
+        hook(kind, addr, size, Location::caller());
+    }
+}
